@@ -55,6 +55,7 @@ class State(object):
         self.cur_args = None
         self.cur_raw = None
         self.try_kind = 'Result'
+        self.tls = {}              # thread-local key name -> id of the anchor cell holding its value
         self.anchors = []          # cells allocated by the harness (kept reachable after the root frame returns)
         self.decisions = []
         self.dec_pos = 0
@@ -144,6 +145,7 @@ def clone_state(st):
     n.cur_args = clone_value(st.cur_args, memo) if st.cur_args is not None else None
     n.cur_raw = st.cur_raw
     n.try_kind = getattr(st, 'try_kind', 'Result')
+    n.tls = dict(getattr(st, 'tls', {}))
     n.anchors = [clone_cell(c, memo) for c in st.anchors]
     n.decisions = list(st.decisions)
     n.dec_pos = st.dec_pos
@@ -721,6 +723,40 @@ class Exec(object):
             raise Unsupported('ambiguous or unknown closure %s' % m.group(1))
         return Closure(b.sname, captures)
 
+    def subcall(self, st, body, args):
+        """run `body` synchronously on `args` inside a model (the callee must be deterministic: exactly one path); cells are shared with `st`"""
+        if body.errors:
+            raise Unsupported('function %s contains a MIR construct the front end does not understand: %s' % (body.sname, body.errors[0][:160]))
+        sub = Exec(self.p, self.overflow_checks)
+        sub.overrides = self.overrides
+        s2 = State()
+        s2.pc = list(st.pc)
+        s2.next_cell = st.next_cell
+        s2.log = st.log
+        s2.notes = st.notes
+        s2.anchors = st.anchors
+        s2.tls = st.tls
+        fr = Frame(body)
+        if len(args) != len(body.args):
+            raise Unsupported('arity mismatch calling %s' % body.sname)
+        for i, v in zip(body.args, args):
+            fr.locals[i] = s2.new_cell(v)
+        s2.frames.append(fr)
+        outs = sub.run(s2)
+        self.bodies_used |= sub.bodies_used | {body.sname}
+        self.models_used |= sub.models_used
+        self.nq += sub.nq
+        if len(outs) != 1:
+            raise Unsupported('nested call of %s inside a model has %d paths (must be deterministic)' % (body.sname, len(outs)))
+        o = outs[0]
+        if o.kind != 'return':
+            raise Panic('panic inside %s: %s' % (body.sname, o.value))
+        if o.state is not s2:
+            raise Unsupported('nested call of %s inside a model forked' % body.sname)
+        st.pc[:] = s2.pc
+        st.next_cell = s2.next_cell
+        return o.value
+
     # ---- running
     def run(self, st):
         self.explore(st, None)
@@ -809,6 +845,15 @@ class Exec(object):
             return Int(z3.BitVecVal(var, 64), True) if isinstance(var, int) else Int(var, True)
         if k in ('adt_tuple', 'adt_unit', 'adt_struct'):
             ml = re.search(r'for (?:\w+::)*(\w+)<.*>>::\w+::(__\w+)::(\w+)$', a[0]) if '::__' in a[0] else None
+            if ml is None and a[0].startswith('__') and getattr(self.p, 'local_enums', None):
+                # a local enum whose name is unique in the crate is printed without its path
+                mu = re.fullmatch(r'(__\w+)::(\w+)', a[0])
+                owners = [k for k in self.p.local_enums if mu and k[1] == mu.group(1)]
+                if mu and len(owners) == 1:
+                    names = self.p.local_enums[owners[0]]
+                    if mu.group(2) not in names:
+                        raise Unsupported('variant %s of local enum %s' % (mu.group(2), mu.group(1)))
+                    return Adt('%s@%s' % (mu.group(1), owners[0][0]), names.index(mu.group(2)), [self.operand(st, fr, o) for o in (a[1] if k == 'adt_tuple' else [])])
             if ml and (ml.group(1), ml.group(2)) in getattr(self.p, 'local_enums', {}):
                 names = self.p.local_enums[(ml.group(1), ml.group(2))]
                 if ml.group(3) not in names:
